@@ -46,9 +46,12 @@ def gen_reaction(rng, j, species):
     if rng.chance(1, 3):
         r["dreactants"] = side(2)
         r["dproducts"] = side(3)
-        if rng.chance(1, 2):
+        c = rng.below(4)
+        if c < 2:
             r["delay"] = {"type": "fixed", "delay": "tau%d" % j}
             params["tau%d" % j] = rng.choice(DYADIC)
+        elif c == 2:
+            r["delay"] = {"type": "none"}          # the delayed part stays a delayed part whatever the delay type says
     return r, params
 
 
